@@ -80,6 +80,7 @@ func (p fileProducer) Apply(dest, mimetype string, result io.Reader) error {
 	if err != nil {
 		return err
 	}
+	defer f.Close()
 	if _, err := io.Copy(f, result); err != nil {
 		return err
 	}
